@@ -9,7 +9,8 @@ UNDECIDED = [
     "the relations themselves (contiguous occurrence, leftmost best-bonus occurrence, anchored equality) over all inputs",
 ]
 ASSUMPTIONS = [
-    "memchr / memchr2 / memmem::find_iter report every occurrence of what they are given inside the slice they are given",
+    "memchr / memchr2 report every occurrence of the byte(s) they are given inside the slice they are given; memmem::Finder::find reports the leftmost occurrence "
+    "(memmem::find_iter reports NON-overlapping occurrences only: C05.candidates-complete)",
 ]
 M = "nucleo_matcher"
 
@@ -90,7 +91,7 @@ def follow_consumers(fn, local, depth=0, seen=None):
             out.append(("search1", u[1], t))
         elif any(c.endswith(x) or f.endswith(x) for x in SEARCH_NEW):
             out.append(("searchnew", u[1], t))
-        elif c.endswith("memmem::find_iter") or f.endswith("memmem::find_iter") or c.endswith("memmem::find") or f.endswith("memmem::find"):
+        elif c.endswith("memmem::find_iter") or f.endswith("memmem::find_iter") or c.endswith("memmem::find") or f.endswith("memmem::find") or c.endswith("::find_overlapping"):
             out.append(("memmem" if pos == "arg0" else "memmem-pattern", u[1], t))
         elif c.endswith("Iterator::position") or f.endswith("Iterator::position") or c.endswith("::position"):
             out.append(("position", u[1], t))
@@ -237,7 +238,7 @@ def rule_prefilter_arms(ctx):
                 problems.append("searches byte %s, not needle[0]" % show(byte))
             if P != Poly.const(1):
                 problems.append("prefilter_len is %s but a single byte is located" % P)
-        elif c.endswith("memmem::find_iter"):
+        elif c.endswith("memmem::find_iter") or c.endswith("::find_overlapping"):
             pat = peel(it[2][1])
             if pat[0] == "call" and str(pat[1]).endswith("::index") and pat[2][1][0] == "agg" and pat[2][1][1].endswith("RangeTo::RangeTo") and root_of(pat[2][0]) == needle_root:
                 plen = poly_of(pat[2][1][2]["end"], at)
@@ -456,9 +457,52 @@ def rule_char_eq_exact(ctx):
     r(ctx)
 
 
+def rule_candidates_complete(ctx):
+    """The substring scanners look at CANDIDATE positions only; an occurrence of the needle that is not among the
+    candidates does not exist for them.  Candidate finders that enumerate every position (memchr / memchr2 over single
+    bytes, an iterator over all positions) are complete.  `memchr::memmem::find_iter` is not: it yields non-overlapping
+    occurrences only -- the search resumes BEHIND the previous occurrence -- so a candidate that starts inside an
+    earlier candidate is skipped ("---b" / "--b": the prefix "--" is found at 0, never at 1; "ba a a" / "a a": the
+    occurrence behind the blank is never scored).  No body of the matcher crate may take its candidates from
+    memmem::find_iter / Finder::find_iter / FindIter with a pattern longer than one byte."""
+    facts = ctx.facts
+    n = 0
+    bad = 0
+    for b in facts.bodies_of(M):
+        fn = fn_of(b)
+        for bi, t in fn.calls(lambda t: "memmem" in callee(t) and callee(t).rsplit("::", 1)[-1] in ("find_iter", "rfind_iter")):
+            n += 1
+            pat = fn.expr_of_operand(t["args"][-1]) if t.get("args") else None
+            # a one-byte pattern cannot overlap itself
+            one = False
+            if pat is not None:
+                for x in walk(pat):
+                    if x[0] == "agg" and str(x[1]).endswith("RangeTo::RangeTo") and strip_casts(x[2].get("end", ("?",)))[:2] == ("const", 1):
+                        one = True
+            if one:
+                ctx.ok(site(fn, bi), "memmem::find_iter with a one-byte pattern (occurrences cannot overlap)")
+                continue
+            bad += 1
+            ctx.violation("%s|candidates|find_iter|%d" % (fn.path, bad), site(fn, bi),
+                          "candidate positions come from memmem::find_iter, which yields NON-overlapping occurrences only: an occurrence of the needle (or of its literal prefix) that "
+                          "starts inside an earlier candidate is never examined -- substring_match(\"---b\", \"--b\") finds nothing, \"ba a a\" / \"a a\" reports the worse-placed occurrence")
+    # the complete finders in use
+    fins = 0
+    for b in facts.bodies_of(M):
+        if not b["path"].lstrip("<").startswith("exact::"):
+            continue
+        fn = fn_of(b)
+        for bi, t in fn.calls(lambda t: any(k in callee(t) for k in ("Memchr::<", "Memchr2::<", "Memchr::new", "Memchr2::new", "memmem::Finder", "::find_overlapping"))):
+            fins += 1
+    ctx.floor("candidate finders of the substring scanners", fins + n, 3)
+    if not bad:
+        ctx.ok("crate nucleo_matcher", "no candidate iterator that skips overlapping occurrences (%d memmem::find_iter call(s), all with one-byte patterns)" % n)
+
+
 def rules(ctx):
     ctx.run_rule("C05.char-eq-exact", rule_char_eq_exact)
     ctx.run_rule("C05.result-source", rule_result_source)
+    ctx.run_rule("C05.candidates-complete", rule_candidates_complete)
     ctx.run_rule("C05.window", rule_window)
     ctx.run_rule("C05.best-bonus", rule_best_bonus)
     ctx.run_rule("C05.prefilter-arms", rule_prefilter_arms)
